@@ -60,7 +60,7 @@ class NonCopy { public: NonCopy(); NonCopy(const NonCopy&) = delete; ~NonCopy();
 union HasNonCopy { NonCopy nc; int i; };
 union PlainUnion { int i; float f; char bytes[8]; };
 class Base { public: virtual ~Base(); virtual int vmethod(int) = 0; virtual void other(); int base_field; };
-class Derived : public Base { public: int vmethod(int) override; void other() override; bool operator==(const Derived &) const;
+class Derived : public Base { public: int vmethod(int) override; void other() override;
   static int counter; int pub_field;
  protected: int prot_field; void prot_method();
  private: int priv_field; void priv_method(); Derived(int) ; };
@@ -438,6 +438,7 @@ def run(res, tier):
 
     agg = {}
     ndrift = confirmed = mispredicted = nshrunk = 0
+    known_min = []
     kinds = {}
     for jid, (kind, b, j) in meta.items():
         ob = obs[jid]
@@ -454,11 +455,21 @@ def run(res, tier):
                 msg = "command_line_flags differs from the modelled ToFlags: %s" % (k[:6] or "order only")
                 if msg not in res.drift and len(res.drift) < 12:
                     res.drift.append(msg)
-        if len(j["setters"]) > 2 and any(k == "bindings-differ" for k, _ in v):
-            # attribute to the smallest sub-configuration that still differs (bounded effort)
-            if nshrunk < 10:
+        if any(k == "bindings-differ" for k, _ in v):
+            # attribute to the smallest sub-configuration that still differs: one already identified
+            # (singles and pairs come first), else by shrinking (bounded effort)
+            mine = {json.dumps(x) for x in j["setters"][1:]}
+            hit = next((k for sub, k in known_min if sub <= mine), None)
+            if hit:
+                v = [(hit if k == "bindings-differ" else k, det) for k, det in v]
+            elif len(mine) <= 2:
+                known_min.append((mine, "bindings-differ:" + ",".join(fields_of(j))))
+            elif nshrunk < 10:
                 nshrunk += 1
                 v = shrink(j, v, rows)
+                for k, det in v:
+                    if k.startswith("bindings-differ:") and det.get("setters"):
+                        known_min.append(({json.dumps(x) for x in det["setters"][1:]}, k))
             else:
                 v = [(k + ":unshrunk" if k == "bindings-differ" else k, det) for k, det in v]
         for key, det in v:
